@@ -3,7 +3,7 @@
    (pkg/readahead/immediate.go Scan over a scripted io.Reader). *)
 From Coq Require Import List NArith Bool Arith.
 From Coq Require Import ZArith.
-From RareV Require Import Gen.GenConsts Base.Hex Model.Lines Proofs.LinesProof Proofs.LinesErr Proofs.LinesTotal Proofs.LinesMain.
+From RareV Require Import Gen.GenConsts Base.Hex Model.Lines Model.LinesBuf Proofs.LinesProof Proofs.LinesErr Proofs.LinesTotal Proofs.LinesMain Proofs.LinesBufProof.
 Import ListNotations.
 
 (* For every stream, every read script (chunking, 0-byte reads, n>0 with error, error position)
@@ -19,6 +19,17 @@ Theorem C04_scanner : forall bs scr str,
     (exists rest, str = o_del o ++ rest).
 Proof. exact C04_scanner_proof. Qed.
 Print Assumptions C04_scanner.
+
+(* the same four clauses for the second scanner of the package, BufferedReadAhead (Model/LinesBuf.v),
+   for every stream, read script and maxBufLen >= 2 (the constructor panics below 2) *)
+Theorem C04_buffered : forall mx scr str, mx >= 2 ->
+  exists o, brun mx scr str = Some o /\
+    o_ret o = lines_spec (o_del o) /\
+    o_end o = o_ret o /\
+    o_nerr o = expected_nerr scr /\
+    o_rae o = 0.
+Proof. exact C04_buffered_proof. Qed.
+Print Assumptions C04_buffered.
 
 (* the boolean form used on the implementation's outputs accepts everything the model produces *)
 Theorem C04_check_sound : forall bs scr str o, run bs scr str = Some o -> C04_check bs scr o = true.
